@@ -381,7 +381,9 @@ class Dex:
         for k in order:
             sdoff[k] = here()
             u = units(S[k])
-            data += uleb(len(u)) + mutf8(u) + b'\0'
+            # (layout['utf16_size_inflate']: string indices whose declared utf16_size is larger than the data -- written by obfuscators; the
+            #  terminator alone ends the data)
+            data += uleb(len(u) + (3 if k in self.layout.get('utf16_size_inflate', ()) else 0)) + mutf8(u) + b'\0'
         self.layout['string_data'] = list(sdoff)
         self.layout['string_data_pos'] = {k: n for n, k in enumerate(order)}       # string index -> position in the file
         if n_s:
